@@ -632,9 +632,6 @@ func (e *executor) list(op opT, abandon bool) error {
 		}
 		if !exhausted {
 			e.count("abandoned")
-			if len(got) != op.Count {
-				return fmt.Errorf("first page of %d items although more follow (count=%d): %q", len(got), op.Count, got)
-			}
 			if !unordered {
 				return compare(got, want[:min(len(want), len(got))], fmt.Sprintf("first page, count=%d", op.Count))
 			}
